@@ -1,4 +1,5 @@
 mod ast;
+mod builtins;
 mod core;
 mod pgen;
 mod grid;
